@@ -2,6 +2,7 @@
 package c04
 
 import (
+	"github.com/apache/skywalking-banyandb/banyand/internal/verif/simknobs"
 	"fmt"
 	"path/filepath"
 	"sort"
@@ -33,6 +34,9 @@ type batchInfo struct {
 
 func runMeasureCrash(e *simcore.Env, tp *simcore.Tape) {
 	synctest.Test(e.T, func(*testing.T) {
+		knobDesc, knobRestore := simknobs.Draw(tp, "measure")
+		defer knobRestore()
+		e.Event("%s", knobDesc)
 		s := wl.GenMeasureSchema(tp, wl.SchemaOpts{MaxShards: 1})
 		repo := simmeta.New()
 		s.Install(repo)
